@@ -24,6 +24,15 @@ def svg_variant(base, version):
     if "<!--vf-->" in base:
         # a master of a variable font: the edit must keep the structure the other masters have (same shapes, other numbers)
         return base.replace('width="40"', f'width="{40 + version}"')
+    if version % 2 == 1:
+        # an edit that touches no geometry: only the first fill colour changes (the normalised shapes, and with them the
+        # part files and the glyph map, stay what they were - only the artwork's content differs)
+        import re
+
+        col = "#%02X40%02X" % ((0x20 * version) % 256, (255 - 0x20 * version) % 256)
+        out, n = re.subn(r'fill="#[0-9A-Fa-f]{6}"', f'fill="{col}"', base, count=1)
+        if n and out != base:
+            return out
     mark = f'<rect x="{80 + version}" y="80" width="10" height="10" fill="#0000{version % 10}0"/></svg>'
     return base.replace("</svg>", mark)
 
